@@ -1646,10 +1646,13 @@ class Interp:
         return v
 
     def compare(self, op, left, right):
-        if op is ast.Is:
-            return left is right
-        if op is ast.IsNot:
-            return left is not right
+        if op in (ast.Is, ast.IsNot):
+            # a symbolic bool stands for one of the singletons True / False
+            for a, b in ((left, right), (right, left)):
+                if isinstance(a, SBool) and isinstance(b, bool):
+                    r = a if b else snot(a)
+                    return r if op is ast.Is else snot(r)
+            return (left is right) if op is ast.Is else (left is not right)
         if op in (ast.In, ast.NotIn):
             f = self.dunder(right, "__contains__")
             if f is not None:
